@@ -35,6 +35,13 @@ impl Channel for NoChan {
     }
 }
 
+fn mk_ctx<'a>(ch: &'a NoChan, circ: &'a Circuit, inputs: &'a [bool], p_eval: usize, p_own: usize, p_out: &'a [usize]) -> Context<'a, NoChan> {
+    Context::new(ch, circ, inputs, Preprocessor::Untrusted, p_eval, p_own, p_out, None)
+}
+
+static NO_INPUTS: [bool; 0] = [];
+static NO_PARTIES: [usize; 0] = [];
+
 fn any_reg() -> Reg {
     Reg(kani::any())
 }
@@ -365,7 +372,10 @@ fn output_tail_n2(o0: u32, o1: u32, prop_own: u8) {
     let ev = [any_opt_bool(), any_opt_bool()];
     let p_out = [0usize];
     let [s0, s1] = own;
+    let ch = NoChan;
+    let ctx = mk_ctx(&ch, &circ, &NO_INPUTS, 1, 0, &p_out);
     let r = seg_output_tail(
+        &ctx,
         &circ,
         0,
         2,
@@ -453,7 +463,10 @@ output_tail_variant!(c02_output_tail_n2_regs11__c01, 1, 1, 1);
 fn c05_output_tail_non_output_party_gets_nothing() {
     let circ = out_circuit(0, 1);
     let p_out = [1usize];
+    let ch = NoChan;
+    let ctx = mk_ctx(&ch, &circ, &NO_INPUTS, 1, 0, &p_out);
     let r = seg_output_tail(
+        &ctx,
         &circ,
         0,
         2,
@@ -480,7 +493,10 @@ fn output_label_check_n2(o0: u32, o1: u32, prop_own: u8) {
         if kani::any() { Some((kani::any(), Label(kani::any()))) } else { None },
         if kani::any() { Some((kani::any(), Label(kani::any()))) } else { None },
     ];
-    let r = seg_output_label_check(&circ, delta, vec![Label(l[0]), Label(l[1])], vec![wl[0], wl[1]], vec![None, None]);
+    let ch = NoChan;
+    let p_out_l = [0usize];
+    let ctx = mk_ctx(&ch, &circ, &NO_INPUTS, 1, 0, &p_out_l);
+    let r = seg_output_label_check(&ctx, &circ, delta, vec![Label(l[0]), Label(l[1])], vec![wl[0], wl[1]], vec![None, None]);
     let ok = r.is_ok();
     kani::cover!(ok, "label_check_ok_reachable");
     kani::cover!(!ok, "label_check_err_reachable");
@@ -549,7 +565,9 @@ fn c03_ip_mid_n2() {
     let own_keys = [own[0].1 .0[1].1 .0, own[1].1 .0[1].1 .0];
     let peer = [any_opt_bool_mac(), any_opt_bool_mac()];
     let [s0, s1] = own;
-    let r = seg_ip_mid(&circ, &inputs[..n_in], 0, 2, delta, vec![s0, s1], vec![vec![], vec![peer[0], peer[1]]]);
+    let ch = NoChan;
+    let ctx = mk_ctx(&ch, &circ, &inputs[..n_in], 1, 0, &NO_PARTIES);
+    let r = seg_ip_mid(&ctx, &circ, &inputs[..n_in], 0, 2, delta, vec![s0, s1], vec![vec![], vec![peer[0], peer[1]]]);
     let ok = r.is_ok();
     kani::cover!(ok, "ip_mid_ok_reachable");
     kani::cover!(!ok, "ip_mid_err_reachable");
@@ -584,7 +602,10 @@ fn c03_ip_mid_n2() {
 fn c03_ip_post_n2() {
     let mine = [any_opt_bool(), any_opt_bool(), any_opt_bool()];
     let theirs = [any_opt_bool(), any_opt_bool(), any_opt_bool()];
-    let r = seg_ip_post(0, 2, vec![mine[0], mine[1], mine[2]], vec![vec![], vec![theirs[0], theirs[1], theirs[2]]]);
+    let ch = NoChan;
+    let circ = Circuit { input_regs: vec![1, 1], insts: vec![], max_reg_count: 3, output_regs: vec![Reg(0)], and_ops: 0 };
+    let ctx = mk_ctx(&ch, &circ, &NO_INPUTS, 1, 0, &NO_PARTIES);
+    let r = seg_ip_post(&ctx, 0, 2, vec![mine[0], mine[1], mine[2]], vec![vec![], vec![theirs[0], theirs[1], theirs[2]]]);
     let ok = r.is_ok();
     kani::cover!(ok, "ip_post_ok_reachable");
     kani::cover!(!ok, "ip_post_err_reachable");
@@ -627,7 +648,9 @@ fn c05_ip_pre_n3() {
     // fewer inputs than it has Input instructions (counters disagree): 1 or 2 shares
     let mk = || Share(kani::any(), Auth(vec![(Mac(kani::any()), Key(0)), (Mac(0), Key(0)), (Mac(kani::any()), Key(0))]));
     let shares = if kani::any() { vec![mk()] } else { vec![mk(), mk()] };
-    let r = seg_ip_pre(&circ, 1, 3, shares);
+    let ch = NoChan;
+    let ctx = mk_ctx(&ch, &circ, &NO_INPUTS, 0, 1, &NO_PARTIES);
+    let r = seg_ip_pre(&ctx, &circ, 1, 3, shares);
     kani::cover!(r.is_ok() && num_inputs == 2, "ip_pre_ok_reachable");
     kani::cover!(r.is_err(), "ip_pre_err_reachable");
     if let Ok(w) = &r {
@@ -712,7 +735,10 @@ fn evaluate_and_arm_n2(i: usize, prop_own: u8) {
     let ly = vec![Label(0), Label(kani::any())];
     let gate = GarbledGate([vec![], vec![], vec![], vec![]]);
     let mut gg: Vec<EnvGateIter> = vec![EnvGateIter(None), EnvGateIter(Some(gate))];
-    let res = seg_evaluate_and_arm(7, i, 0, 0, 2, delta, rows, &lx, &ly, &mut gg);
+    let ch = NoChan;
+    let circ = Circuit { input_regs: vec![1, 1], insts: vec![], max_reg_count: 3, output_regs: vec![Reg(0)], and_ops: 1 };
+    let ctx = mk_ctx(&ch, &circ, &NO_INPUTS, 0, 0, &NO_PARTIES);
+    let res = seg_evaluate_and_arm(&ctx, 7, i, 0, 0, 2, delta, rows, &lx, &ly, &mut gg);
     let ok = res.is_ok();
     kani::cover!(ok, "and_arm_ok_reachable");
     kani::cover!(!ok, "and_arm_err_reachable");
@@ -934,7 +960,10 @@ fn c07_ip_labels_one_label_per_wire() {
     let l: [u128; 3] = [kani::any(), kani::any(), kani::any()];
     let m = [any_opt_bool(), any_opt_bool(), any_opt_bool()];
     let labels = [Label(l[0]), Label(l[1]), Label(l[2])];
-    let r = seg_ip_labels(Delta(delta), &labels, vec![m[0], m[1], m[2]]);
+    let ch = NoChan;
+    let circ = Circuit { input_regs: vec![1, 1], insts: vec![], max_reg_count: 3, output_regs: vec![Reg(0)], and_ops: 0 };
+    let ctx = mk_ctx(&ch, &circ, &NO_INPUTS, 0, 1, &NO_PARTIES);
+    let r = seg_ip_labels(&ctx, Delta(delta), &labels, vec![m[0], m[1], m[2]]);
     let ok = r.is_ok();
     assert!(ok, "C07:labels:returns-Ok");
     if let Ok(v) = &r {
@@ -977,7 +1006,10 @@ fn c05_output_share_msg_n3() {
     let sh = |w: usize| Share(bits[w], Auth(vec![(Mac(0), Key(0)), (Mac(m1[w]), Key(kani::any())), (Mac(m2[w]), Key(kani::any()))]));
     let shares = vec![sh(0), sh(1), sh(2)];
     let to: usize = if kani::any() { 1 } else { 2 };
-    let r = seg_output_share_msg(&circ, &shares, to);
+    let ch = NoChan;
+    let p_out_s = [1usize, 2usize];
+    let ctx = mk_ctx(&ch, &circ, &NO_INPUTS, 1, 0, &p_out_s);
+    let r = seg_output_share_msg(&ctx, &circ, &shares, to);
     let ok = r.is_ok();
     assert!(ok, "C05:output-shares:message-built");
     if let Ok(msg) = &r {
@@ -1013,9 +1045,12 @@ fn recipients_ok(rec: &Vec<usize>, p_out: &[usize], p_own: usize) -> bool {
 fn c05_output_recipients() {
     let p_out = any_vec_usize_le3();
     let p_own: usize = kani::any();
-    let r1 = seg_output_share_recipients(&p_out, p_own);
+    let ch = NoChan;
+    let circ = Circuit { input_regs: vec![1, 1, 1], insts: vec![], max_reg_count: 1, output_regs: vec![Reg(0)], and_ops: 0 };
+    let ctx = mk_ctx(&ch, &circ, &NO_INPUTS, 0, p_own, &p_out);
+    let r1 = seg_output_share_recipients(&ctx, &p_out, p_own);
     assert!(recipients_ok(&r1, &p_out, p_own), "C05:output-shares:recipients==p_out-without-self");
-    let r2 = seg_output_lambda_recipients(&p_out, p_own);
+    let r2 = seg_output_lambda_recipients(&ctx, &p_out, p_own);
     assert!(recipients_ok(&r2, &p_out, p_own), "C05:lambda:recipients==p_out-without-self");
     kani::cover!(r1.len() == 2, "two_recipients_reachable");
     std::mem::forget((r1, r2, p_out));
@@ -1035,7 +1070,10 @@ fn c05_output_lambda_msg_n3() {
     let le = |w: usize| vec![Label(0), Label(l1[w]), Label(l2[w])];
     let labels_eval = vec![le(0), le(1), le(2)];
     let to: usize = if kani::any() { 1 } else { 2 };
-    let r = seg_output_lambda_msg(&circ, &values, &labels_eval, to);
+    let ch = NoChan;
+    let p_out_s = [1usize, 2usize];
+    let ctx = mk_ctx(&ch, &circ, &NO_INPUTS, 0, 0, &p_out_s);
+    let r = seg_output_lambda_msg(&ctx, &circ, &values, &labels_eval, to);
     let ok = r.is_ok();
     assert!(ok, "C05:lambda:message-built");
     if let Ok(msg) = &r {
@@ -1121,8 +1159,11 @@ fn c09_ip_pre_pattern_independent_of_shares() {
     let c1 = mk_circ();
     let c2 = mk_circ();
     let mk = || Share(kani::any(), Auth(vec![(Mac(kani::any()), Key(0)), (Mac(kani::any()), Key(0)), (Mac(kani::any()), Key(0))]));
-    let a = seg_ip_pre(&c1, 1, 3, vec![mk(), mk()]);
-    let b = seg_ip_pre(&c2, 1, 3, vec![mk(), mk()]);
+    let ch = NoChan;
+    let ctx1 = mk_ctx(&ch, &c1, &NO_INPUTS, 0, 1, &NO_PARTIES);
+    let ctx2 = mk_ctx(&ch, &c2, &NO_INPUTS, 0, 1, &NO_PARTIES);
+    let a = seg_ip_pre(&ctx1, &c1, 1, 3, vec![mk(), mk()]);
+    let b = seg_ip_pre(&ctx2, &c2, 1, 3, vec![mk(), mk()]);
     let both = a.is_ok() && b.is_ok();
     assert!(a.is_ok() == b.is_ok(), "C09:input-sharing:error-behaviour-independent-of-share-values");
     if let (Ok(a), Ok(b)) = (&a, &b) {
@@ -1145,4 +1186,169 @@ fn c09_ip_pre_pattern_independent_of_shares() {
     }
     kani::cover!(both, "pattern_both_ok_reachable");
     std::mem::forget((a, b, c1, c2));
+}
+
+// ------------------------------------------------------------------------------------------
+// n = 3: one AND gate end to end (two garblers 1, 2; evaluator 0), rows + labels + AND arm
+
+static mut ENV_DECRYPT_Q: [Option<(bool, Vec<Mac>, Label)>; 2] = [None, None];
+static mut ENV_DECRYPT_NEXT: usize = 0;
+
+/// env_decrypt for the n = 3 composition: hands out the plaintexts of the two garblers' rows in
+/// the order the evaluator asks for them (p = 1, then p = 2).
+#[allow(static_mut_refs)]
+fn env_decrypt_n3(_k: &GarblingKey, _bytes: &[u8]) -> Result<(bool, Vec<Mac>, Label), garble::Error> {
+    unsafe {
+        let i = ENV_DECRYPT_NEXT;
+        ENV_DECRYPT_NEXT += 1;
+        match ENV_DECRYPT_Q[i].take() {
+            Some(t) => Ok(t),
+            None => Err(garble::Error::DecryptionFailed),
+        }
+    }
+}
+
+fn and_gate_full_n3(row: usize) {
+    // delta[p]; bit[p][c]; key[p][q][c] = p's key for q's bit of component c; mac derived.
+    let delta: [u128; 3] = [kani::any(), kani::any(), kani::any()];
+    let bit: [[bool; 4]; 3] = [
+        [kani::any(), kani::any(), kani::any(), kani::any()],
+        [kani::any(), kani::any(), kani::any(), kani::any()],
+        [kani::any(), kani::any(), kani::any(), kani::any()],
+    ];
+    let k = || -> [u128; 4] { [kani::any(), kani::any(), kani::any(), kani::any()] };
+    let z4 = [0u128; 4];
+    let key: [[[u128; 4]; 3]; 3] = [[z4, k(), k()], [k(), z4, k()], [k(), k(), z4]];
+    // mac of p towards q for component c: key[q][p][c] ^ bit[p][c] * delta[q]
+    let mac = |p: usize, q: usize, c: usize| key[q][p][c] ^ (if bit[p][c] { delta[q] } else { 0 });
+    let auth = |p: usize, c: usize| -> Auth {
+        Auth(vec![
+            (Mac(if p == 0 { 0 } else { mac(p, 0, c) }), Key(key[p][0][c])),
+            (Mac(if p == 1 { 0 } else { mac(p, 1, c) }), Key(key[p][1][c])),
+            (Mac(if p == 2 { 0 } else { mac(p, 2, c) }), Key(key[p][2][c])),
+        ])
+    };
+    // components: 0 = x, 1 = y, 2 = gamma, 3 = sigma; AND relation of the preprocessed share
+    let lam = |c: usize| bit[0][c] ^ bit[1][c] ^ bit[2][c];
+    kani::assume(lam(3) == (lam(0) & lam(1)));
+    let g1 = seg_garbler_rows(0, Delta(delta[1]), bit[1][3], bit[1][2], bit[1][0], bit[1][1], auth(1, 3), auth(1, 2), auth(1, 0), auth(1, 1));
+    let g2 = seg_garbler_rows(0, Delta(delta[2]), bit[2][3], bit[2][2], bit[2][0], bit[2][1], auth(2, 3), auth(2, 2), auth(2, 0), auth(2, 1));
+    let e = seg_evaluator_rows(bit[0][3], bit[0][2], bit[0][0], bit[0][1], auth(0, 3), auth(0, 2), auth(0, 0), auth(0, 1));
+    let l0: [u128; 2] = [kani::any(), kani::any()];
+    let lab1 = seg_garbler_row_labels(Delta(delta[1]), Label(l0[0]), &g1[0], &g1[1], &g1[2], &g1[3]);
+    let lab2 = seg_garbler_row_labels(Delta(delta[2]), Label(l0[1]), &g2[0], &g2[1], &g2[2], &g2[3]);
+    let a = row >= 2;
+    let b = row % 2 == 1;
+    let z = ((a ^ lam(0)) & (b ^ lam(1))) ^ lam(2);
+    assert!((g1[row].0 ^ g2[row].0 ^ e[row].0) == z, "C01:and-table-n3:row_i==(a^lambda_x)(b^lambda_y)^lambda_gamma");
+    unsafe {
+        let m1 = vec![g1[row].1 .0[0].0, g1[row].1 .0[1].0, g1[row].1 .0[2].0];
+        let m2 = vec![g2[row].1 .0[0].0, g2[row].1 .0[1].0, g2[row].1 .0[2].0];
+        std::ptr::write(std::ptr::addr_of_mut!(ENV_DECRYPT_Q), [Some((g1[row].0, m1, lab1[row])), Some((g2[row].0, m2, lab2[row]))]);
+        ENV_DECRYPT_NEXT = 0;
+    }
+    let lx = vec![Label(0), Label(kani::any()), Label(kani::any())];
+    let ly = vec![Label(0), Label(kani::any()), Label(kani::any())];
+    let gate = || GarbledGate([vec![], vec![], vec![], vec![]]);
+    let mut gg: Vec<EnvGateIter> = vec![EnvGateIter(None), EnvGateIter(Some(gate())), EnvGateIter(Some(gate()))];
+    let [e0, e1, e2, e3] = e;
+    let ch = NoChan;
+    let circ = Circuit { input_regs: vec![1, 1, 1], insts: vec![], max_reg_count: 3, output_regs: vec![Reg(0)], and_ops: 1 };
+    let ctx = mk_ctx(&ch, &circ, &NO_INPUTS, 0, 0, &NO_PARTIES);
+    let res = seg_evaluate_and_arm_n3(&ctx, 9, row, 0, 0, 3, Delta(delta[0]), [e0, e1, e2, e3], &lx, &ly, &mut gg);
+    let ok = res.is_ok();
+    assert!(ok, "C01:and-gate-n3:honest-rows-accepted-by-the-evaluator");
+    if let Ok((s, label)) = &res {
+        assert!(*s == z, "C01:and-gate-n3:evaluator-obtains-the-masked-AND-value");
+        assert!(label.len() == 3, "C01:and-gate-n3:one-label-per-party");
+        if label.len() == 3 {
+            assert!(label[1].0 == l0[0] ^ (if z { delta[1] } else { 0 }), "C01:and-gate-n3:label-of-garbler-1==label0^value*delta");
+            assert!(label[2].0 == l0[1] ^ (if z { delta[2] } else { 0 }), "C01:and-gate-n3:label-of-garbler-2==label0^value*delta");
+        }
+    }
+    kani::cover!(ok && z, "and_gate_n3_nontrivial_reachable");
+    std::mem::forget(res);
+    std::mem::forget((g1, g2, lx, ly, gg));
+}
+
+macro_rules! and_gate_full_n3_variant {
+    ($name:ident, $row:expr) => {
+        #[kani::proof]
+        #[kani::unwind(6)]
+        #[kani::stub(std::fmt::format, no_format)]
+        fn $name() {
+            and_gate_full_n3($row);
+        }
+    };
+}
+and_gate_full_n3_variant!(c01_and_gate_full_n3_row0, 0);
+and_gate_full_n3_variant!(c01_and_gate_full_n3_row1, 1);
+and_gate_full_n3_variant!(c01_and_gate_full_n3_row2, 2);
+and_gate_full_n3_variant!(c01_and_gate_full_n3_row3, 3);
+
+// ------------------------------------------------------------------------------------------
+// C07: garbler state set-up + loop (labels must come from their own random draws)
+
+/// Stand-in for FileOrMemBuf::<Share> as far as garble() uses it: iter() yields `n` fixed shares.
+pub(crate) struct EnvShareBuf(pub usize);
+impl EnvShareBuf {
+    pub(crate) fn iter(&mut self) -> std::io::Result<EnvShareIter> {
+        Ok(EnvShareIter(self.0))
+    }
+}
+
+static mut ENV_R: [u128; 4] = [0; 4];
+static mut ENV_R_NEXT: usize = 0;
+
+/// rand::random() as environment: the k-th call returns the k-th of four arbitrary values.
+fn env_random_seq() -> u128 {
+    unsafe {
+        let k = ENV_R_NEXT;
+        ENV_R_NEXT += 1;
+        if k < 4 { ENV_R[k] } else { any_u128() }
+    }
+}
+
+/// C07 - every input wire's zero-label is its own fresh random draw (two wires that share a
+/// zero-label reveal label_0 and label_0 ^ delta as soon as their masked values differ, i.e.
+/// the garbler's global key), and NOT offsets the label by delta.
+#[kani::proof]
+#[kani::unwind(6)]
+#[kani::stub(std::fmt::format, no_format)]
+fn c07_garble_input_labels_are_fresh_draws() {
+    let circ = Circuit {
+        input_regs: vec![1, 1],
+        insts: vec![
+            Inst { out: Reg(0), op: Op::Input(Input { party: 0, input: 0 }) },
+            Inst { out: Reg(1), op: Op::Input(Input { party: 1, input: 0 }) },
+            Inst { out: Reg(2), op: Op::Not(Not(Reg(1))) },
+        ],
+        max_reg_count: 3,
+        output_regs: vec![Reg(2)],
+        and_ops: 0,
+    };
+    let r: [u128; 4] = [kani::any(), kani::any(), kani::any(), kani::any()];
+    unsafe {
+        ENV_R = r;
+        ENV_R_NEXT = 0;
+    }
+    let delta: u128 = kani::any();
+    let ch = NoChan;
+    let ctx = mk_ctx(&ch, &circ, &NO_INPUTS, 0, 1, &NO_PARTIES);
+    let mut rs = EnvShareBuf(2);
+    let res = seg_garble_garbler_full(&ctx, Delta(delta), &mut rs, EnvShareBuf(0));
+    let ok = res.is_ok();
+    assert!(ok, "C07:garble:returns-Ok");
+    if let Ok((input_labels, labels, sent)) = &res {
+        assert!(input_labels.len() == 2, "C07:garble:one-zero-label-per-input-wire");
+        if input_labels.len() == 2 && labels.len() == 3 {
+            assert!(input_labels[0].0 == r[0] && input_labels[1].0 == r[1], "C07:garble:each-input-zero-label-is-its-own-random-draw");
+            assert!(labels[0].0 == r[0] && labels[1].0 == r[1], "C07:garble:wire-labels==input-labels");
+            assert!(labels[2].0 == r[1] ^ delta, "C07:garble:NOT-offsets-the-zero-label-by-delta");
+        }
+        assert!(sent.is_empty(), "C07:garble:no-gate-chunk-without-AND-gates");
+    }
+    kani::cover!(ok, "garble_full_reachable");
+    std::mem::forget(res);
+    std::mem::forget(circ);
 }
